@@ -9,13 +9,13 @@ open PsModel.C10.Spec
 /-- what every entry produced by `glob_read_files` looks like -/
 structure FromRow (rows : List Row) (apps : AppsCfg) (files : List File) (e : Entry) : Prop where
   row : ∃ r ∈ rows, ∃ f ∈ files, matchRow r f.path = true ∧ isCommented f.path = false ∧
-      ((r.checkConfig = true ∧ ∃ c, apps.lookup ((fqOf r.dir f.path).headD "") = some c ∧ e = mkEntry r f (some c)) ∨
+      ((r.checkConfig = true ∧ ∃ c, apps.lookup ((fqOf r.dir f.path).headD "") = some c ∧ e = mkEntry r f c) ∨
        (r.checkConfig = false ∧ e = mkEntry r f none))
 
 theorem addFile_mem {r : Row} {apps : AppsCfg} {acc : List Entry} {f : File} {e : Entry}
     (h : e ∈ addFile r apps acc f) :
     e ∈ acc ∨ (matchRow r f.path = true ∧ isCommented f.path = false ∧ hasName acc (ctxNameOf r.dir f.path) = false ∧
-      ((r.checkConfig = true ∧ ∃ c, apps.lookup ((fqOf r.dir f.path).headD "") = some c ∧ e = mkEntry r f (some c)) ∨
+      ((r.checkConfig = true ∧ ∃ c, apps.lookup ((fqOf r.dir f.path).headD "") = some c ∧ e = mkEntry r f c) ∨
        (r.checkConfig = false ∧ e = mkEntry r f none))) := by
   unfold addFile at h
   split at h
@@ -56,7 +56,7 @@ theorem addFile_sub {r : Row} {apps : AppsCfg} {acc : List Entry} {f : File} {e 
 theorem foldFiles_mem {r : Row} {apps : AppsCfg} (files : List File) (acc : List Entry) {e : Entry}
     (h : e ∈ files.foldl (addFile r apps) acc) :
     e ∈ acc ∨ ∃ f ∈ files, matchRow r f.path = true ∧ isCommented f.path = false ∧
-      ((r.checkConfig = true ∧ ∃ c, apps.lookup ((fqOf r.dir f.path).headD "") = some c ∧ e = mkEntry r f (some c)) ∨
+      ((r.checkConfig = true ∧ ∃ c, apps.lookup ((fqOf r.dir f.path).headD "") = some c ∧ e = mkEntry r f c) ∨
        (r.checkConfig = false ∧ e = mkEntry r f none)) := by
   induction files generalizing acc with
   | nil => exact .inl h
@@ -192,12 +192,12 @@ theorem ctxName_doc_of_loadRows {r : Row} {p : Path} (hr : r ∈ loadRows) (hm :
 
 theorem autoload_sound_of_loadRows {r : Row} {f : File} {apps : AppsCfg} {e : Entry} (hr : r ∈ loadRows)
     (hm : matchRow r f.path = true)
-    (hcase : (r.checkConfig = true ∧ ∃ c, apps.lookup ((fqOf r.dir f.path).headD "") = some c ∧ e = mkEntry r f (some c)) ∨
+    (hcase : (r.checkConfig = true ∧ ∃ c, apps.lookup ((fqOf r.dir f.path).headD "") = some c ∧ e = mkEntry r f c) ∨
        (r.checkConfig = false ∧ e = mkEntry r f none))
     (hedge : f.path ≠ ["apps", "__init__"])
     (ha : e.autoload = true) :
     isAutoPath apps e.path = true ∧
-      (isUnder "apps" e.name = true → e.appCfg = apps.lookup (e.name.getD 1 "") ∧ e.appCfg.isSome = true) := by
+      (isUnder "apps" e.name = true → apps.lookup (e.name.getD 1 "") = some e.appCfg) := by
   rw [loadRows_eq] at hr
   simp only [List.mem_cons, List.mem_nil_iff, or_false] at hr
   rcases hr with rfl | rfl | rfl | rfl | rfl | rfl | rfl | rfl
